@@ -42,7 +42,7 @@ ASSUMPTIONS = ["predicate lib/graphmodel.py states the nine documented condition
 PALETTES = {"A": ("ideal", "ramp"), "B": ("main", "simp")}
 
 
-def enum_case(n, edge_list, ocodes, dcodes, share, palette):
+def enum_case(n, edge_list, ocodes, dcodes, share, palette, pre_origin=False):
     """ocodes per node: 0 none, 1 own non-ramp, 2 own ramp, 3 shared ramp, (4 own non-ramp', 5 own ramp' for mixed)."""
     nonramp, ramp = PALETTES[palette]
     clash = palette == "B"  # distinct elements sharing one name: still not duplicates
@@ -57,6 +57,15 @@ def enum_case(n, edge_list, ocodes, dcodes, share, palette):
             uni["links"].append("X%d" if clash else f"L{len(uni['links'])}")
         ops.append(["add_link", f"n{u}", tok, f"n{v}"])
     mid = len(ops)
+    extra_checks = []
+    if pre_origin:
+        # later attachments replace earlier ones: a throwaway non-ramp origin first, validation, then the real one
+        for i, c in enumerate(ocodes):
+            if c:
+                uni["origins"].append([nonramp, "X%d" if clash else f"T{i}"])
+                ops.append(["add_origin", f"o{len(uni['origins']) - 1}", f"n{i}"])
+        if len(ops) > mid:
+            extra_checks.append(len(ops) - 1)
     shared_o = None
     for i, c in enumerate(ocodes):
         if c == 0:
@@ -84,7 +93,7 @@ def enum_case(n, edge_list, ocodes, dcodes, share, palette):
             tok = f"d{len(uni['dests'])}"
             uni["dests"].append(["cong" if i % 2 else "free", "X%d" if clash else f"D{i}"])
         ops.append(["add_destination", tok, f"n{i}"])
-    return {"universe": uni, "ops": ops, "checks": sorted({mid - 1, len(ops) - 1})}
+    return {"universe": uni, "ops": ops, "checks": sorted({mid - 1, len(ops) - 1} | set(extra_checks))}
 
 
 def _space(n, ocode_set):
@@ -102,13 +111,13 @@ def enumerate_cases(tier, seed, shard, nshards):
     for n in (1, 2):
         for edges, oc, dc, share in _space(n, (0, 1, 2, 3, 4, 5)):
             if idx % nshards == shard:
-                yield enum_case(n, edges, oc, dc, share, "AB"[idx // nshards % 2])
+                yield enum_case(n, edges, oc, dc, share, "AB"[idx // nshards % 2], pre_origin=idx // nshards % 3 == 0)
             idx += 1
     if tier == "thorough":
         for pal in ("A", "B"):
             for edges, oc, dc, share in _space(3, (0, 1, 2, 3)):
                 if idx % nshards == shard:
-                    yield enum_case(3, edges, oc, dc, share, pal)
+                    yield enum_case(3, edges, oc, dc, share, pal, pre_origin=idx % 5 == 0)
                 idx += 1
     else:
         rnd = random.Random(seed * 7919 + shard)
@@ -119,7 +128,7 @@ def enumerate_cases(tier, seed, shard, nshards):
             oc = tuple(rnd.randrange(6) for _ in range(3))
             dc = tuple(rnd.randrange(3) for _ in range(3))
             share = len(edges) >= 2 and rnd.random() < 0.3
-            yield enum_case(3, edges, oc, dc, share, rnd.choice("AB"))
+            yield enum_case(3, edges, oc, dc, share, rnd.choice("AB"), pre_origin=rnd.random() < 0.3)
 
 
 @st.composite
@@ -138,7 +147,7 @@ def cases(draw):
     nd = len(D)
     nn = len(nodes)
     for _ in range(draw(st.integers(0, 3))):
-        e = draw(st.sampled_from(["drop", "redirect", "add", "reuse_link", "origin", "reuse_origin", "dest", "reuse_dest", "isolated", "selfloop", "drop_origin", "drop_dest"]))
+        e = draw(st.sampled_from(["drop", "redirect", "add", "reuse_link", "origin", "reuse_origin", "dest", "reuse_dest", "isolated", "selfloop", "drop_origin", "drop_dest", "replace_origin"]))
         if e == "drop" and E:
             E.pop(draw(st.integers(0, len(E) - 1)))
         elif e == "redirect" and E:
@@ -164,6 +173,10 @@ def cases(draw):
             k = draw(st.integers(0, nn - 1))
             E.append([k, k, nl])
             nl += 1
+        elif e == "replace_origin" and O:
+            o_, n_ = O[draw(st.integers(0, len(O) - 1))]
+            O.append([len(okinds), n_])  # a second origin on the same node: the later one replaces the earlier
+            okinds.append(draw(st.sampled_from(["ideal", "main", "ramp", "simp"])))
         elif e == "drop_origin" and O:
             O.pop(draw(st.integers(0, len(O) - 1)))
         elif e == "drop_dest" and D:
